@@ -1,8 +1,11 @@
 (* C05 -- Quantise puts every event on the grid and keeps every note well-formed.
-   Statements about Model.Pairing.quantise (absolute list in stored order, list of step sizes). *)
+   Statements about Model.Pairing.quantise (absolute list in stored order, list of step sizes).
+   Auxiliary definitions: pos_steps, maxZ, nonnote, qnt, qmove, sorted_time, quantise_core (Proofs/C05_proofs.v);
+   kproj (note messages of one (channel, pitch) key), kst / kstep / krun (run of one key), wf_key, wf_abs,
+   kst_closed (Proofs/C05_wf.v). *)
 From Coq Require Import ZArith List Bool Lia Permutation.
 From Model Require Import Base Seq Pairing.
-From Proofs Require Import C05_closest C05_proofs C05_wf C05_sweep C05_sort C05_final.
+From Proofs Require Import C05_closest C05_proofs C05_wf C05_sweep C05_sort C05_final C05_survive.
 Import ListNotations.
 Open Scope Z_scope.
 
@@ -29,7 +32,8 @@ Print Assumptions C05_keep_other.
 (* clause "has moved by at most the largest step size": every output message is an input message with only its time
    changed, by at most max steps, or a NOTE_OFF inserted at the (quantised) time of a NOTE_ON that re-triggers a
    sounding key (see C05_no_insert: impossible on well-formed input).  Needs positive steps and an input sorted by
-   time (without sortedness the loop result can hold a note-off moved arbitrarily far: [on@100; off@0]). *)
+   time: the proof goes through the loop result (before the zero-length sweep), where on an unsorted input a
+   note-off can be moved arbitrarily far ([on@100; off@0] gives off@100; that pair is then swept as zero-length). *)
 Theorem C05_move : forall l steps out, steps <> [] -> pos_steps steps = true -> sorted_time l = true ->
   quantise l steps = Ok out ->
   Forall (fun x => exists m t', In m l /\ Z.abs (t' - m_time m) <= maxZ steps /\
@@ -63,3 +67,23 @@ Theorem C05_wf_loop : forall l steps k, wf_abs l = true ->
   exists st, krun false KNone (kproj k (q_out (quantise_core l steps))) = Some st /\ kst_closed st.
 Proof. exact C05_final.C05_wf_loop. Qed.
 Print Assumptions C05_wf_loop.
+
+(* clause "a note at least two largest steps away from every other note of its channel and pitch is dropped only when
+   quantisation leaves no grid position for its end after its quantised start; otherwise it survives with its pitch,
+   channel and velocity": in a well-formed list  pre ++ on :: mid ++ off :: post  where (on, off) is a note (no note
+   message of its key in mid) and every earlier note message of its key lies at least 2 * max steps before its onset
+   (later notes do not matter), if some grid position of the off time lies after the quantised start qnt steps on,
+   then the output holds the note-on moved to qnt steps on and the note-off moved to a strictly later time, both
+   otherwise unchanged (set_time / qmove only change the time). *)
+Theorem C05_survive : forall pre on mid off post steps out,
+  steps <> [] -> pos_steps steps = true ->
+  wf_abs (pre ++ on :: mid ++ off :: post) = true ->
+  m_type on = NOTE_ON -> m_type off = NOTE_OFF -> qkey off = qkey on ->
+  kproj (qkey on) mid = [] ->
+  forallb (fun x => m_time x + 2 * maxZ steps <=? m_time on) (kproj (qkey on) pre) = true ->
+  existsb (fun p => qnt steps on <? p) (positions (m_time off) steps) = true ->
+  quantise (pre ++ on :: mid ++ off :: post) steps = Ok out ->
+  In (qmove steps on) out /\
+  exists t', qnt steps on < t' /\ In (set_time off t' (m_tf off)) out.
+Proof. exact C05_survive.C05_survive. Qed.
+Print Assumptions C05_survive.
